@@ -45,7 +45,7 @@ REPO = os.environ.get("VF_REPO", "/repo")
 VERIF = os.path.dirname(os.path.dirname(os.path.abspath(__file__)))
 
 CLAUSES = {"requires", "ensures", "returns", "raises", "may_raise", "modifies", "pure", "let", "cover", "holds",
-           "variant", "declare", "assume", "check", "fresh_result"}
+           "variant", "declare", "assume", "check", "fresh_result", "sample"}
 
 
 class Clause:
@@ -122,6 +122,7 @@ class Registry:
         self.verifying: Optional[str] = None
         self.force_inline: set = set()
         self.files: list = []
+        self.concrete_ok: set = set()
 
     # ---- loading ------------------------------------------------------------------------------
     def load_file(self, path: str) -> None:
@@ -161,6 +162,7 @@ class Registry:
             con = Contract("lemma:" + lm["name"], lm["fn"], node_of(lm["fn"]), mod, lm["opts"], False)
             self.lemmas.append(con)
         self.inline |= api.REGISTRY["inline"]
+        self.concrete_ok |= api.REGISTRY["concrete_ok"]
         self.shapes.update(api.REGISTRY["shapes"])
         self.files.append(path)
 
@@ -320,6 +322,103 @@ class Registry:
                 return members[d]
         raise Unsupported(f"no symbolic representation for type {typ!r} (parameter {name})")
 
+    def conforms(self, it: Any, v: Any, typ: Any, name: str) -> Any:
+        """True / False / z3 term: does value v lie in the domain described by typ?"""
+        p: Path = it.p
+        if isinstance(typ, api.Opaque):
+            return True
+        if typ is int:
+            return is_int_like(v)
+        if typ is bool:
+            return isinstance(v, (bool, SBool))
+        if typ is bytes:
+            return isinstance(v, (bytes, SBytes))
+        if typ is bytearray:
+            return isinstance(v, (bytearray, SByteArray))
+        if typ is str:
+            return isinstance(v, (str, SStr))
+        if typ is None or typ is type(None):
+            return v is None
+        if isinstance(typ, api.Range):
+            if not is_int_like(v):
+                return False
+            t = int_term(v)
+            cs = []
+            if typ.lo is not None:
+                cs.append(t >= typ.lo)
+            if typ.hi is not None:
+                cs.append(t <= typ.hi)
+            r = z3.simplify(z3.And(cs)) if cs else z3.BoolVal(True)
+            return True if z3.is_true(r) else False if z3.is_false(r) else r
+        if isinstance(typ, api.Bytes):
+            if typ.mutable != isinstance(v, (bytearray, SByteArray)) or not is_bytes_like(v):
+                return False
+            b = as_sbytes(v)
+            cs = []
+            if typ.n is not None:
+                cs.append(b.n == typ.n)
+            if typ.lo is not None:
+                cs.append(b.n >= typ.lo)
+            if typ.hi is not None:
+                cs.append(b.n <= typ.hi)
+            r = z3.simplify(z3.And(cs)) if cs else z3.BoolVal(True)
+            return True if z3.is_true(r) else False if z3.is_false(r) else r
+        if isinstance(typ, api.Const):
+            return (not ops.has_sym(v)) and (v is typ.value or v == typ.value)
+        if isinstance(typ, api.OneOf):
+            if ops.has_sym(v):
+                return False
+            return any(v is x or (type(v) is type(x) and v == x) for x in typ.values)
+        if isinstance(typ, api.ListOf):
+            if not isinstance(v, (list, tuple)) or len(v) != typ.n:
+                return False
+            return self._conj([self.conforms(it, x, typ.elem, f"{name}[{i}]") for i, x in enumerate(v)])
+        if isinstance(typ, api.Obj):
+            cls = self._resolve_class(typ.cls) if isinstance(typ.cls, str) else typ.cls
+            if isinstance(v, SObj):
+                if v.cls is not cls:
+                    return False
+                parts = []
+                for fname, ftyp in typ.fields.items():
+                    if fname not in v.fields:
+                        return False
+                    parts.append(self.conforms(it, v.fields[fname], ftyp, f"{name}.{fname}"))
+                return self._conj(parts)
+            if type(v) is cls:
+                parts = []
+                for fname, ftyp in typ.fields.items():
+                    if not hasattr(v, fname):
+                        return False
+                    parts.append(self.conforms(it, getattr(v, fname), ftyp, f"{name}.{fname}"))
+                return self._conj(parts)
+            return False
+        if isinstance(typ, api.Seq):
+            return isinstance(v, SSeq) or isinstance(v, (list, tuple))
+        origin = typing.get_origin(typ)
+        if origin is typing.Union:
+            res = [self.conforms(it, v, a, name) for a in typing.get_args(typ)]
+            if any(r is True for r in res):
+                return True
+            terms = [r for r in res if r is not False]
+            if not terms:
+                return False
+            return z3.Or(terms) if len(terms) > 1 else terms[0]
+        if isinstance(typ, type) and (typ.__module__ or "").startswith("spsdk"):
+            key = f"{typ.__module__}:{typ.__qualname__}"
+            if key in self.shapes:
+                return self.conforms(it, v, api.Obj(typ, **self.shapes[key]()), name)
+            return isinstance(v, typ) and not ops.has_sym(v)
+        return False
+
+    @staticmethod
+    def _conj(parts: list) -> Any:
+        if any(x is False for x in parts):
+            return False
+        ts = [x for x in parts if x is not True]
+        if not ts:
+            return True
+        return z3.And(ts) if len(ts) > 1 else ts[0]
+
     def _resolve_class(self, spec: str) -> type:
         modname, qual = spec.split(":")
         obj: Any = importlib.import_module(modname)
@@ -344,7 +443,10 @@ class Registry:
 
     def eval_bool(self, it: Any, node: ast.expr, fr: Any) -> Any:
         """Evaluate a clause expression to a python bool or z3 Bool term."""
-        v = it.ev(node, fr)
+        try:
+            v = it.ev(node, fr)
+        except PyRaise as e:
+            raise Unsupported(f"specification clause raised {e.exc.cls.__name__}: {ast.unparse(node)[:80]}")
         return ops.truth_term(it.p, v)
 
     # ---- applying a contract at a call site -----------------------------------------------------
@@ -356,12 +458,27 @@ class Registry:
         if con.assumed:
             p.assumption_ids.add("assumed:" + con.target)
         bound = it.bind_args(func, args, kwargs)
-        fr = self.spec_frame(con, bound)
-        fr.result = UNBOUND
-        self.eval_lets(it, con, fr)
         n = p.ghost.get("callno", 0) + 1
         p.ghost["callno"] = n
         short = con.target.split(":")[1]
+        # the parameter types of the contract are part of its precondition
+        for name in con.params:
+            if name not in bound:
+                raise Unsupported(f"call of {short}: parameter {name} unbound")
+            t = self.conforms(it, bound[name], con.ann.get(name, api.Opaque()), name)
+            if t is False:
+                raise Unsupported(f"call of {short}: argument {name}={bound[name]!r} is outside the contract's type domain")
+            if t is not True:
+                p.oblige(f"pre@{short}#type:{name}", t, note=f"call #{n}")
+                p.assume(t)
+        for name in bound:
+            if name not in con.params:
+                sigp = self.signature(func).parameters[name]
+                if sigp.default is sigp.empty or bound[name] is not sigp.default:
+                    raise Unsupported(f"call of {short}: parameter {name} is not covered by the contract")
+        fr = self.spec_frame(con, bound)
+        fr.result = UNBOUND
+        self.eval_lets(it, con, fr)
         for c in con.of("requires"):
             t = self.eval_bool(it, c.arg(0), fr)
             p.oblige(f"pre@{short}#{c.label or c.idx}", t, note=f"call #{n}")
